@@ -133,7 +133,7 @@ def extra_c17(tier, seed, workdir, sh, GH, GM):
         else:
             # Miri itself unavailable (e.g. sysroot cannot be built): not evidence either way
             return [dict(evaluations=0, findings=[], nontrivial=[], samples=[{"miri": "unavailable", "output": tail[-300:]}], stats={"miri_unavailable": 1})]
-    return [dict(evaluations=1, findings=findings, nontrivial=[("miri", 1)], samples=[{"miri": "5 sorter cases + 1 reader case", "result": "ok" if ok else "failed"}], stats={"miri_runs": 1})]
+    return [dict(evaluations=1, findings=findings, nontrivial=[("miri", 1)], samples=[{"miri": "5 sorter cases + 1 reader case + 1 merger case (borrowed merge results)", "result": "ok" if ok else "failed"}], stats={"miri_runs": 1})]
 
 PROPS["C14"] = dict(
     module="Grenad.Props.C14",
